@@ -196,3 +196,59 @@ impl Drop for MatrixSlab {
         unsafe { dealloc(self.0.as_ptr(), Layout::new::<MatcherData>()) };
     }
 }
+
+/// Extents of the views handed out by [`MatrixSlab::alloc`] (verification harness only).
+#[cfg(nucleo_verif)]
+#[derive(Debug, Clone)]
+pub struct MatrixLayoutInfo {
+    /// size of the slab allocation
+    pub slab_size: usize,
+    /// size of the layout computed for this call
+    pub layout_size: usize,
+    /// (byte offset, byte length, alignment) of haystack, bonus, row_offs, current_row, matrix_cells
+    pub views: [(usize, usize, usize); 5],
+}
+
+#[cfg(nucleo_verif)]
+pub(crate) fn layout_info<C: Char>(
+    haystack_len: usize,
+    needle_len: usize,
+) -> Option<MatrixLayoutInfo> {
+    use std::mem::align_of;
+    let cells = haystack_len * needle_len;
+    if cells > MAX_MATRIX_SIZE || haystack_len > u16::MAX as usize || needle_len > MAX_NEEDLE_LEN {
+        return None;
+    }
+    let matrix_layout = MatrixLayout::<C>::new(haystack_len, needle_len);
+    if matrix_layout.layout.size() > size_of::<MatcherData>() {
+        return None;
+    }
+    // a dangling, suitably aligned base: the pointers are only used for address arithmetic
+    let base = NonNull::<u64>::dangling().cast::<u8>();
+    let (haystack, bonus, rows, current_row, matrix_cells) =
+        unsafe { matrix_layout.fieds_from_ptr(base) };
+    let b = base.as_ptr() as usize;
+    Some(MatrixLayoutInfo {
+        slab_size: size_of::<MatcherData>(),
+        layout_size: matrix_layout.layout.size(),
+        views: [
+            (
+                haystack as *mut C as usize - b,
+                haystack.len() * size_of::<C>(),
+                align_of::<C>(),
+            ),
+            (bonus as *mut u8 as usize - b, bonus.len(), 1),
+            (rows as *mut u16 as usize - b, rows.len() * 2, 2),
+            (
+                current_row as *mut ScoreCell as usize - b,
+                current_row.len() * size_of::<ScoreCell>(),
+                align_of::<ScoreCell>(),
+            ),
+            (
+                matrix_cells as *mut MatrixCell as usize - b,
+                matrix_cells.len(),
+                1,
+            ),
+        ],
+    })
+}
